@@ -323,7 +323,69 @@ class _InlineSingleUse(ast.NodeTransformer):
         return fn
 
 
-KINDS = {"comp_to_loop": _CompToLoop, "inline_single_use": _InlineSingleUse, "drop_else_after_exit": _DropElseAfterExit, "add_else_after_exit": _AddElseAfterExit, "early_continue": _EarlyContinue,
+class _SwapIfExp(ast.NodeTransformer):
+    """a if c else b  ->  b if not c else a"""
+
+    def visit_IfExp(self, node):
+        self.generic_visit(node)
+        test = node.test.operand if isinstance(node.test, ast.UnaryOp) and isinstance(node.test.op, ast.Not) else ast.UnaryOp(op=ast.Not(), operand=node.test)
+        return ast.IfExp(test=test, body=node.orelse, orelse=node.body)
+
+
+class _NestAnd(ast.NodeTransformer):
+    """if a and b: BODY  (no else)  ->  if a: if b: BODY"""
+
+    def visit_If(self, node):
+        self.generic_visit(node)
+        if not node.orelse and isinstance(node.test, ast.BoolOp) and isinstance(node.test.op, ast.And) and len(node.test.values) == 2:
+            a, b = node.test.values
+            return ast.If(test=a, body=[ast.If(test=b, body=node.body, orelse=[])], orelse=[])
+        return node
+
+
+class _DictCall(ast.NodeTransformer):
+    """{"a": x, "b": y}  ->  dict(a=x, b=y)   (identifier string keys only)"""
+
+    def visit_Dict(self, node):
+        self.generic_visit(node)
+        if node.keys and all(isinstance(k, ast.Constant) and isinstance(k.value, str) and k.value.isidentifier() and k.value not in ("None", "True", "False") for k in node.keys):
+            import keyword
+            if not any(keyword.iskeyword(k.value) for k in node.keys):
+                return ast.Call(func=ast.Name(id="dict", ctx=ast.Load()), args=[], keywords=[ast.keyword(arg=k.value, value=v) for k, v in zip(node.keys, node.values)])
+        return node
+
+
+class _SwapAdjacentAssigns(ast.NodeTransformer):
+    """a = X; b = Y  ->  b = Y; a = X   (plain names, no calls / subscripts of names being assigned, neither reads the other)"""
+
+    def _block(self, stmts):
+        out, k = [], 0
+        def pure(s):
+            return isinstance(s, ast.Assign) and len(s.targets) == 1 and isinstance(s.targets[0], ast.Name) \
+                and not any(isinstance(n, (ast.Call, ast.Lambda, ast.ListComp, ast.GeneratorExp, ast.DictComp, ast.SetComp, ast.Yield, ast.Await, ast.NamedExpr)) for n in ast.walk(s.value))
+        while k < len(stmts):
+            a = stmts[k]
+            b = stmts[k + 1] if k + 1 < len(stmts) else None
+            if b is not None and pure(a) and pure(b) and a.targets[0].id != b.targets[0].id \
+                    and not any(isinstance(n, ast.Name) and n.id == a.targets[0].id for n in ast.walk(b.value)) \
+                    and not any(isinstance(n, ast.Name) and n.id == b.targets[0].id for n in ast.walk(a.value)):
+                out += [b, a]
+                k += 2
+            else:
+                out.append(a)
+                k += 1
+        return out
+
+    def generic_visit(self, node):
+        super().generic_visit(node)
+        for f in ("body", "orelse", "finalbody"):
+            v = getattr(node, f, None)
+            if isinstance(v, list) and v and isinstance(v[0], ast.stmt):
+                setattr(node, f, self._block(v))
+        return node
+
+
+KINDS = {"swap_ifexp": _SwapIfExp, "nest_and": _NestAnd, "dict_call": _DictCall, "swap_adjacent_assigns": _SwapAdjacentAssigns, "comp_to_loop": _CompToLoop, "inline_single_use": _InlineSingleUse, "drop_else_after_exit": _DropElseAfterExit, "add_else_after_exit": _AddElseAfterExit, "early_continue": _EarlyContinue,
          "hoist_args": _HoistArgs, "tuple_assign": _TupleAssign, "swap_branches": _SwapBranches, "ifexp_to_if": _IfExpToIf, "if_to_ifexp": _IfToIfExp, "flip_compare": _FlipCompare, "hoist_return": _HoistReturn}
 
 
